@@ -1,4 +1,5 @@
 import StatimeModel.Lemmas.InstanceInv
+import StatimeModel.Generated.ReceiptTimer
 import StatimeModel.Props.C05
 /-
 C08 — Ports act only within their role; at most one port steers the clock.
@@ -859,5 +860,27 @@ theorem non_slave_port_feeds_peer_delay_only (i i' : Inst) (op : Op) (obs : Obs)
     · cases hr : m.rawDelay with
       | none => rfl
       | some v => exact absurd (this (Or.inr (by simp [hr]))) (by simp)
+
+/-! ### the announce receipt timeout as translated from the source on this run
+(`translator/extract_receipt.py` → `Generated/ReceiptTimer.lean`, interpreter `Lemmas/ReceiptGen.lean`) -/
+section Translated
+open Statime.RcptGen
+
+/-- **`handle_announce_receipt_timer` as translated on this run is the model's `handleReceiptTimer`**: which
+condition is tested first (a Faulty port only re-arms the timer), that a slave-only instance goes back to Listening and
+everything else becomes Master, and the timer actions of each branch - for every port and instance state. With
+`role_invariants` above: a slave-only instance never gets a Master port this way, whatever the port's own flags. -/
+theorem generated_receipt_timer_is_model (p : Port) (s : InstState) :
+    ∀ t, Generated.receiptTimerTable = some t → evalReceipt t p s = p.handleReceiptTimer s := by
+  intro t h
+  unfold Generated.receiptTimerTable at h
+  cases h
+  all_goals (
+    unfold evalReceipt Port.handleReceiptTimer
+    simp only [evalEarly, Cond.holds, St.toP, Branch.eval, List.map, Act.out, decide_eq_true_eq]
+    by_cases h1 : p.st = .faulty <;> by_cases h2 : p.st = .listening <;> by_cases h3 : p.st = .master <;>
+      by_cases h4 : s.dflt.slaveOnly = true <;> by_cases h5 : p.cfg.masterOnly = true <;> simp_all)
+
+end Translated
 
 end Statime.C08
